@@ -93,12 +93,12 @@ Print Assumptions C14_bit_array_create.
 (* ---- the string / byte-array constructors and copies from the source (translated on every run):
    when the allocation fails, NULL is returned and the memory is exactly as before - no partial
    object, nothing written through the failed pointer.  (The success branch is C15_source_*.) *)
-Theorem C14_source_alloc_failure : forall sx,
-  (forall q n m, 0 <= n -> n + 1 <= int_max -> 0 <= q -> q + n <= zlen m -> fails_clean sx prog_sbdf_str_create_len [VPtr RIn q; VInt n] m) /\
-  (forall pre bytes post, Forall (fun b => b <> 0) bytes -> zlen bytes + 1 <= int_max -> fails_clean sx prog_sbdf_str_create [VPtr RIn (zlen pre)] (pre ++ bytes ++ 0 :: post)) /\
-  (forall pre bytes post, zlen bytes + 1 <= int_max -> fails_clean sx prog_sbdf_str_copy [VPtr RIn (zlen pre + 4)] (str_mem pre bytes post)) /\
-  (forall q n m, 0 <= n -> n <= int_max -> 0 <= q -> q + n <= zlen m -> fails_clean sx prog_sbdf_ba_create [VPtr RIn q; VInt n] m) /\
-  (forall pre payload post, zlen payload <= int_max -> fails_clean sx prog_sbdf_copy_array [VPtr RIn (zlen pre + 4)] (pre ++ le32 (zlen payload) ++ payload ++ post)).
+Theorem C14_source_alloc_failure : forall sx hc,
+  (forall q n m, 0 <= n -> n + 1 <= int_max -> 0 <= q -> q + n <= zlen m -> fails_clean sx hc prog_sbdf_str_create_len [VPtr RIn q; VInt n] m) /\
+  (forall pre bytes post, Forall (fun b => b <> 0) bytes -> zlen bytes + 1 <= int_max -> fails_clean sx hc prog_sbdf_str_create [VPtr RIn (zlen pre)] (pre ++ bytes ++ 0 :: post)) /\
+  (forall pre bytes post, zlen bytes + 1 <= int_max -> fails_clean sx hc prog_sbdf_str_copy [VPtr RIn (zlen pre + 4)] (str_mem pre bytes post)) /\
+  (forall q n m, 0 <= n -> n <= int_max -> 0 <= q -> q + n <= zlen m -> fails_clean sx hc prog_sbdf_ba_create [VPtr RIn q; VInt n] m) /\
+  (forall pre payload post, zlen payload <= int_max -> fails_clean sx hc prog_sbdf_copy_array [VPtr RIn (zlen pre + 4)] (pre ++ le32 (zlen payload) ++ payload ++ post)).
 Proof. exact alloc_failure_source. Qed.
 Print Assumptions C14_source_alloc_failure.
 
@@ -106,9 +106,9 @@ Print Assumptions C14_source_alloc_failure.
    oracle the call returns a status - never a fault; with a failing allocation (k = 0) it reports
    out-of-memory (or the error the header already deserved) and in every failing case the caller's
    memory m is intact (a prefix of the final memory; the block that was obtained is handed to free). *)
-Theorem C14_source_read_string : forall sx m k, Forall byte sx ->
+Theorem C14_source_read_string : forall hc sx m k, Forall byte sx ->
   exists f0, forall f, (f0 <= f)%nat -> exists fin st,
-    callH prog_env f prog_sbdf_read_string [tok; tok] m k sx = OReturn (VInt st) fin /\
+    callC prog_env f prog_sbdf_read_string [tok; tok] m k sx hc = OReturn (VInt st) fin /\
     match read_string false None sx with
     | Ok (bytes, rest) =>
         if k =? 0 then st = SBDF_ERROR_OUT_OF_MEMORY /\ inb fin = m
